@@ -166,6 +166,11 @@ def report(prop, tier, seed, level, res, coverage, wall, assumptions=()):
     """Prints VIOLATION / KNOWN-FINDING lines, writes evidence, returns the
     exit code."""
     findings = load_findings()
+    d = os.path.join(VERIF, 'replays')
+    if os.path.isdir(d):
+        for n in os.listdir(d):
+            if n.startswith(prop + '-') and n.endswith('.json'):
+                os.remove(os.path.join(d, n))
     new, known = [], {}
     for key in sorted(res.violations):
         v = res.violations[key]
